@@ -193,7 +193,35 @@ fn build_cases() -> Vec<Case> {
     cases
 }
 
-pub fn main(tier: Tier, seed: u64) -> i32 {
+/// Child mode: one party gets a circuit whose and_ops counter is absurdly large; run in its own
+/// process because an allocation failure aborts.
+pub fn huge_child(value: usize, all: bool) -> i32 {
+    let t = &base_triples()[0];
+    let mut args = valid_args(t);
+    for (p, a) in args.iter_mut().enumerate() {
+        if all || p == 0 {
+            let mut c = (*a.circ).clone();
+            c.and_ops = value;
+            a.circ = Arc::new(c);
+        }
+    }
+    let cfg = ExecCfg::new(2, 5);
+    let r = run_default(&cfg, mpc_body_args(args));
+    for (p, o) in r.outcomes.iter().enumerate() {
+        println!("HUGE party {p}: {}", o.kind());
+        if let Outcome::Panic(m) = o {
+            println!("HUGE panic: {m}");
+        }
+    }
+    0
+}
+
+pub fn main(tier: Tier, seed: u64, rest: &[String]) -> i32 {
+    if let Some(pos) = rest.iter().position(|a| a == "--huge") {
+        let v: usize = rest.get(pos + 1).and_then(|s| s.parse().ok()).unwrap_or(usize::MAX);
+        let all = rest.get(pos + 2).map(|s| s == "all").unwrap_or(false);
+        return huge_child(v, all);
+    }
     let mut rep = Report::new("C18", tier, seed, "exploration");
     if let Err(e) = super::selftest::determinism(seed) {
         rep.machinery(e);
@@ -254,6 +282,30 @@ pub fn main(tier: Tier, seed: u64) -> i32 {
             rep.violation(format!("{}:{kind}", c.class), format!("{}: {d}", c.name), json!({"kind":"c18","name": c.name}));
         }
     }
+    // absurd and_ops counters, each in its own process (an allocation failure aborts)
+    let exe = std::env::current_exe().expect("exe");
+    let mut huge_runs = 0;
+    for value in [1usize << 40, usize::MAX / 64, usize::MAX - 1, usize::MAX] {
+        for all in ["one", "all"] {
+            let out = std::process::Command::new(&exe).args(["C18", "quick", "--huge", &value.to_string(), all]).env("PVX_THREADS", "1").output();
+            rep.evaluations += 1;
+            huge_runs += 1;
+            distinct.insert(format!("huge/{value}/{all}"));
+            match out {
+                Err(e) => rep.machinery(format!("cannot spawn child: {e}")),
+                Ok(o) => {
+                    let txt = String::from_utf8_lossy(&o.stdout).to_string();
+                    if !o.status.success() {
+                        rep.violation("counter_and_ops:abort", format!("and_ops={value} given to {all} part(y/ies): the process died ({}) - allocation failure / abort", o.status), json!({"kind":"c18","name":format!("huge and_ops {value} {all}")}));
+                    } else if txt.contains("HUGE panic") {
+                        let m = txt.lines().find(|l| l.starts_with("HUGE panic")).unwrap_or("").to_string();
+                        rep.violation("counter_and_ops:panic", format!("and_ops={value} given to {all} part(y/ies): {m}"), json!({"kind":"c18","name":format!("huge and_ops {value} {all}")}));
+                    }
+                }
+            }
+        }
+    }
+    rep.set("huge_and_ops_child_runs", json!(huge_runs));
     rep.distinct_nontrivial = distinct.len() as u64;
     rep.exhaustive = Some(true);
     rep.rule = "three valid (circuit, inputs, roles) triples for n=2,3; one argument at a time takes every value of its invalid menu (given to each single party and to all parties); distinct = (triple, altered argument, value, recipients); every case is non-trivial (an argument is invalid or non-canonical)".into();
